@@ -23,19 +23,17 @@ theorem sameProf_idxOp (g : Graph) (op : C04.Op Str) : SameProf g (g.idxOp op) :
 theorem sameProf_onRsEvent (g : Graph) (e : RsEvent) : SameProf g (g.onRsEvent e) := by
   cases e with
   | ipsetActive uid d => exact (sameProf_idxOp _ _).trans (sameProf_emit _ _)
-  | ipsetInactive uid => exact sameProf_idxOp _ _
+  | ipsetInactive uid => exact (sameProf_emit _ _).trans (sameProf_idxOp _ _)
+
+theorem sameProf_rsUpdate (H : IdFn) (g : Graph) (key : RulesId) (r : Option RulesIn) :
+    SameProf g (g.rsUpdate H key r) := by
+  unfold Graph.rsUpdate
+  simp only []
+  exact (sameProf_foldl Graph.onRsEvent sameProf_onRsEvent _ _).trans rfl
 
 theorem sameProf_scanRules (H : IdFn) (g : Graph) (key : RulesId) (r : Option RulesIn) :
-    SameProf g (g.scanRules H key r) := by
-  unfold Graph.scanRules
-  simp only []
-  have h1 : SameProf g (List.foldl Graph.onRsEvent { g with rs := (g.rs.updateRules key (match r with
-      | some r => currentSets H r
-      | none => [])).1 } (g.rs.updateRules key (match r with
-      | some r => currentSets H r
-      | none => [])).2) :=
-    (sameProf_foldl _ sameProf_onRsEvent _ _).trans rfl
-  cases key <;> cases r <;> exact (sameProf_emit _ _).trans h1
+    SameProf g (g.scanRules H key r) :=
+  (sameProf_emit _ _).trans (sameProf_rsUpdate H g key r)
 
 theorem sameProf_sendPolicyUpdate (H : IdFn) (g : Graph) (n : Nat) : SameProf g (g.sendPolicyUpdate H n) := by
   unfold Graph.sendPolicyUpdate
